@@ -496,6 +496,19 @@ func generate(prop string, fl *hx.Flags) []unit {
 		c.ID = id
 		us = append(us, unit{Case: c})
 	}
+	// lease scenarios (lease.go): locks held across lease periods on the un-gated store, part of C01
+	if prop == "C01" {
+		nlease := 12
+		if fl.Tier == "thorough" {
+			nlease = 60
+		}
+		for i := 0; i < nlease; i++ {
+			id++
+			c := leaseCase(prop, fl.Seed, i)
+			c.ID = id
+			us = append(us, unit{Case: c})
+		}
+	}
 	// renewal races on the un-gated store (free.go, LeaseMs > 0): judged by residue only, part of C04
 	if prop == "C04" {
 		nrace := 32
